@@ -138,4 +138,21 @@ class DesignConditions(Contract):
             dc = calculate_design_conditions(c, steps=[3.0 + 0.37, 3.0 - 1.1, 3.0 + 2.0], swap_axis=case["swap"])
         except Exception as e:
             return {"confirmed": True, "detail": f"star-shaped contour: raised {type(e).__name__}: {e}"}
-        return {"confirmed": False, "detail": f"star-shaped contour: {dc.tolist()}"}
+        # polygons whose CLOSING edge (last vertex -> first vertex) carries the top ordinate, or starts on the top edge
+        bad = []
+        polys = [([[1, 5], [1, 1], [4, 1], [4, 5]], 2.5, 5.0),
+                 ([[1, 1], [4, 1], [4, 5], [2.5, 6], [1, 5]], 3.0, 5.0 + 2.0 / 3.0),
+                 ([[4, 5], [1, 5], [1, 1], [4, 1]], 2.0, 5.0)]
+        for cc, a, top in polys:
+            p_ = C()
+            p_.coordinates = np.array([[q[1], q[0]] for q in cc] if case["swap"] else cc, dtype=float)
+            try:
+                got = np.asarray(calculate_design_conditions(p_, steps=[a], swap_axis=case["swap"]), dtype=float).reshape(-1, 2)
+            except Exception as e:
+                bad.append((cc, a, f"raised {type(e).__name__}: {e}"))
+                continue
+            if len(got) != 1 or abs(got[0, 0] - a) > 1e-12 or abs(got[0, 1] - top) > 1e-9:
+                bad.append((cc, a, got.tolist(), top))
+        if bad:
+            return {"confirmed": True, "detail": f"(polygon, abscissa, returned design condition, largest ordinate of the polygon there): {bad}"}
+        return {"confirmed": False, "detail": f"star-shaped contour: {dc.tolist()}; closing-edge polygons: top ordinates as expected"}
